@@ -300,17 +300,17 @@ theorem deleted_member_leaves_no_stale_value_in_subs (se : Exec.SEnv) (ids : SM.
 /-! Non-vacuity: `A` defines `f`; `B(A)` and `D(B)` inherit it, `C` is unrelated.  `A.new_cells("g")`
 touches `A`, `B`, `D` – `g` becomes visible there – and nothing of `C`; `del A.f` likewise. -/
 def iOps : List SM.Op :=
-  [.newSpace [] "A" [], .newSpace [] "B" [["A"]], .newSpace [] "C" [], .newSpace [] "D" [["B"]],
-   .newCells ["A"] "f" 1, .newCells ["C"] "h" 2]
+  [.newSpace [] "A" [] [], .newSpace [] "B" [["A"]] [], .newSpace [] "C" [] [], .newSpace [] "D" [["B"]] [],
+   .newCells ["A"] "f" "f" 1, .newCells ["C"] "h" "h" 2]
 
 def iIds : SM.Ids := ⟨fun q x => q.length * 100 + x.length, fun _ _ => 0, fun _ => 0⟩
 
 example : (SM.St.run [] {} iOps).touched ["A"] = [["A"], ["B"], ["D"]] ∧
-    (SM.nsOf iIds (SM.St.run [] {} (iOps ++ [.newCells ["A"] "g" 3])) ["D"] "g").isSome = true ∧
+    (SM.nsOf iIds (SM.St.run [] {} (iOps ++ [.newCells ["A"] "g" "g" 3])) ["D"] "g").isSome = true ∧
     (SM.nsOf iIds (SM.St.run [] {} iOps) ["D"] "g").isSome = false ∧
     (SM.nsOf iIds (SM.St.run [] {} (iOps ++ [.delCells ["A"] "f"])) ["D"] "f").isSome = false ∧
     (SM.nsOf iIds (SM.St.run [] {} iOps) ["D"] "f").isSome = true ∧
-    (SM.St.run [] {} (iOps ++ [.newCells ["A"] "g" 3])).cont .cells ["C"] = (SM.St.run [] {} iOps).cont .cells ["C"] := by
+    (SM.St.run [] {} (iOps ++ [.newCells ["A"] "g" "g" 3])).cont .cells ["C"] = (SM.St.run [] {} iOps).cont .cells ["C"] := by
   decide
 
 end inheritance
